@@ -203,8 +203,10 @@ class DATADumpFile(DATADump):
 
 	# Writes a new message at the end of the capture
 	def append_msg(self, msg):
-		# Generate raw bytes and write
+		# Generate raw bytes and write (always at the end of the
+		# capture, regardless of where the last read has left us)
 		msg_raw = self.dump_msg(msg)
+		self.f.seek(0, 2)
 		self.f.write(msg_raw)
 
 	# Writes a list of messages at the end of the capture
